@@ -39,7 +39,8 @@ class DigestAuthScheme(object):
 	@classmethod
 	def compose(cls, authinfo: ByteUnicodeDict) -> bytes:
 		params = cls._compose(authinfo)
-		return b', '.join([HeaderElement.formatparam(k.encode('ASCII'), v) for k, v in params])
+		# an empty value is written as an empty quoted string: a bare name is no auth-param (and starts a new challenge for split())
+		return b', '.join([HeaderElement.formatparam(k.encode('ASCII'), v) if v else b'%s=""' % (k.encode('ASCII'), ) for k, v in params])
 
 	@classmethod
 	def _compose(cls, authinfo):  # pragma: no cover
